@@ -98,6 +98,41 @@ def like_charge_constructs(ctx):
     # mirror copy shifted by 6 A along x: lysines of the two copies come close
     k2 = C.translate(k2, 6000, 1000, -500)
     out.append(("lys-lys", C.join(k + [C.TER] + k2 + [C.TER]), []))
+    # two lysines whose NZ atoms are 3.2 A apart (hydrogen-bonded base-base pair, scored iteratively): the copy is the
+    # fragment turned by 180 degrees about an axis through the midpoint, chosen so that nothing else clashes
+    from .. import pdbio
+    for resn, atom in (("LYS", "NZ"),):
+        tips = [pdbio.parse_line(ln) for ln in k if C.is_atom(ln) and ln[17:20] == resn and ln[12:16].strip() == atom]
+        done = False
+        for tip in tips:
+            for ax in range(3):
+                for sgn in (1, -1):
+                    for wax in [a_ for a_ in range(3) if a_ != ax]:
+                        m = [tip.x, tip.y, tip.z]
+                        m[ax] += sgn * 1600
+                        cp = []
+                        for ln in k:
+                            if not C.is_atom(ln):
+                                continue
+                            r = pdbio.parse_line(ln)
+                            q = [r.x, r.y, r.z]
+                            new_ = [2 * m[i] - q[i] for i in range(3)]
+                            new_[wax] = q[wax]          # 180 degrees about the axis along `wax` through m
+                            cp.append(pdbio.set_xyz(C.set_resid(ln, chain="C"), *new_))
+                        pts = [(pdbio.parse_line(x), x) for x in k if C.is_atom(x)]
+                        clash = False
+                        for y in cp:
+                            ry = pdbio.parse_line(y)
+                            for rx, x in pts:
+                                d2 = (rx.x - ry.x) ** 2 + (rx.y - ry.y) ** 2 + (rx.z - ry.z) ** 2
+                                if d2 < 3000 ** 2 and not (x[12:16].strip() == atom and y[12:16].strip() == atom and d2 >= 3100 ** 2):
+                                    clash = True
+                                    break
+                            if clash:
+                                break
+                        if not clash and not done:
+                            out.append((f"{resn.lower()}-{resn.lower()}-hbonded-3.2A", C.join(k + [C.TER] + cp + [C.TER]), []))
+                            done = True
     return out
 
 
